@@ -658,6 +658,7 @@ type coldef struct {
 	BlockData BlockData
 	Column    wpg.Column
 	Notify    bool
+	topic     int // position of an indexed input's value in the log's topics
 }
 
 // Implements the [shovel.Integration] interface
@@ -731,15 +732,26 @@ func (ig *Integration) setCols() {
 		}
 		return wpg.Column{}
 	}
-	for _, input := range ig.Event.Selected() {
-		c := getCol(input.Column)
-		ig.Columns = append(ig.Columns, c.Name)
-		ig.coldefs = append(ig.coldefs, coldef{
-			Input:  input,
-			Column: c,
-			Notify: slices.Contains(ig.Notification.Columns, c.Name),
-		})
-		ig.numSelected++
+	// topic 0 is the signature hash; each indexed input owns the next
+	// topic whether or not it is selected.
+	var nextTopic = 1
+	for _, evInput := range ig.Event.Inputs {
+		var topic int
+		if evInput.Indexed {
+			topic = nextTopic
+			nextTopic++
+		}
+		for _, input := range evInput.Selected() {
+			c := getCol(input.Column)
+			ig.Columns = append(ig.Columns, c.Name)
+			ig.coldefs = append(ig.coldefs, coldef{
+				Input:  input,
+				Column: c,
+				Notify: slices.Contains(ig.Notification.Columns, c.Name),
+				topic:  topic,
+			})
+			ig.numSelected++
+		}
 	}
 	for _, bd := range ig.Block {
 		c := getCol(bd.Column)
@@ -1033,18 +1045,17 @@ func (ig Integration) processLog(rows [][]any, lwc *logWithCtx, pgmut *sync.Mute
 			return nil, fmt.Errorf("scanning abi data: %w", err)
 		}
 		for i := 0; i < ig.resultCache.Len(); i++ {
-			ictr, actr := 1, 0
+			actr := 0
 			frs := filterResults{kind: ig.filterAGG}
 			row := make([]any, len(ig.coldefs))
 			for j, def := range ig.coldefs {
 				switch {
 				case def.Input.Indexed:
-					d := dbtype(def.Input.Type, lwc.l.Topics[ictr])
+					d := dbtype(def.Input.Type, lwc.l.Topics[def.topic])
 					if err := def.Input.Accept(lwc.ctx, pgmut, pg, d, &frs); err != nil {
 						return nil, fmt.Errorf("checking filter: %w", err)
 					}
 					row[j] = d
-					ictr++
 				case !def.BlockData.Empty():
 					var d any
 					switch {
@@ -1076,7 +1087,7 @@ func (ig Integration) processLog(rows [][]any, lwc *logWithCtx, pgmut *sync.Mute
 		for i, def := range ig.coldefs {
 			switch {
 			case def.Input.Indexed:
-				d := dbtype(def.Input.Type, lwc.l.Topics[1+i])
+				d := dbtype(def.Input.Type, lwc.l.Topics[def.topic])
 				if err := def.Input.Accept(lwc.ctx, pgmut, pg, d, &frs); err != nil {
 					return nil, fmt.Errorf("checking filter: %w", err)
 				}
